@@ -16,15 +16,21 @@ import (
 // n: 读取字节数
 // round: 检测方式
 // lock: 读取随机源的互斥锁
+// readErr: 随机源读取错误（由 lock 保护），一旦出错不再读取
 // counter: 结果集统计
-func worker(jobs chan int, source io.Reader, lock *sync.Mutex, n int, round func([]byte) []*randomness.TestResult, counter []int32, distributions [][]float64, wait *sync.WaitGroup) {
+func worker(jobs chan int, source io.Reader, lock *sync.Mutex, readErr *error, n int, round func([]byte) []*randomness.TestResult, counter []int32, distributions [][]float64, wait *sync.WaitGroup) {
 	buf := make([]byte, n, n*2)
 	for i := range jobs {
 		// 一个样本必须由连续的 n 字节组成：加锁并读满，防止短读或多个worker交错读取
 		lock.Lock()
-		_, err := io.ReadFull(source, buf)
+		err := *readErr
+		if err == nil {
+			_, err = io.ReadFull(source, buf)
+			*readErr = err
+		}
 		lock.Unlock()
 		if err != nil {
+			wait.Done()
 			continue
 		}
 		resArr := round(buf)
@@ -39,15 +45,16 @@ func worker(jobs chan int, source io.Reader, lock *sync.Mutex, n int, round func
 }
 
 // 根据处理器情况启动worker
-// return 控制命令管道, 结束型号器
-func bootWorker(source io.Reader, n int, round func([]byte) []*randomness.TestResult, counter []int32, distributions [][]float64) (chan int, *sync.WaitGroup) {
+// return 控制命令管道, 结束型号器, 随机源读取错误（结束型号器等待完成后读取）
+func bootWorker(source io.Reader, n int, round func([]byte) []*randomness.TestResult, counter []int32, distributions [][]float64) (chan int, *sync.WaitGroup, *error) {
 	var wait sync.WaitGroup
 	var lock sync.Mutex
+	var readErr error
 	jobs := make(chan int)
 	for i := 0; i < runtime.NumCPU(); i++ {
-		go worker(jobs, source, &lock, n, round, counter, distributions, &wait)
+		go worker(jobs, source, &lock, &readErr, n, round, counter, distributions, &wait)
 	}
-	return jobs, &wait
+	return jobs, &wait, &readErr
 }
 
 // FactoryDetectFast 出厂检测，15种检测，每组 10^6比特，分50组
@@ -58,13 +65,16 @@ func FactoryDetectFast(source io.Reader) (bool, error) {
 	n := 1000000 / 8
 	counters := make([]int32, 15)
 	distributions := createDistributions(s, 15)
-	jobs, wg := bootWorker(source, n, Round15, counters, distributions)
+	jobs, wg, readErr := bootWorker(source, n, Round15, counters, distributions)
 	wg.Add(s)
 	defer close(jobs)
 	for i := 0; i < s; i++ {
 		jobs <- i
 	}
 	wg.Wait()
+	if *readErr != nil {
+		return false, *readErr
+	}
 	fmt.Println(counters)
 	for i, itemCnt := range counters {
 		if int(itemCnt) < t {
@@ -88,13 +98,16 @@ func PowerOnDetectFast(source io.Reader) (bool, error) {
 	n := 1000000 / 8
 	counters := make([]int32, 15)
 	distributions := createDistributions(s, 15)
-	jobs, wg := bootWorker(source, n, Round15, counters, distributions)
+	jobs, wg, readErr := bootWorker(source, n, Round15, counters, distributions)
 	wg.Add(s)
 	defer close(jobs)
 	for i := 0; i < s; i++ {
 		jobs <- i
 	}
 	wg.Wait()
+	if *readErr != nil {
+		return false, *readErr
+	}
 	fmt.Println(counters)
 
 	for i, itemCnt := range counters {
@@ -120,13 +133,16 @@ func PeriodDetectFast(source io.Reader) (bool, error) {
 	n := 20000 / 8
 	counters := make([]int32, 12)
 	distributions := createDistributions(s, 12)
-	jobs, wg := bootWorker(source, n, Round12, counters, distributions)
+	jobs, wg, readErr := bootWorker(source, n, Round12, counters, distributions)
 	wg.Add(s)
 	defer close(jobs)
 	for i := 0; i < s; i++ {
 		jobs <- i
 	}
 	wg.Wait()
+	if *readErr != nil {
+		return false, *readErr
+	}
 	fmt.Println(counters)
 	for i, itemCnt := range counters {
 		if int(itemCnt) < t {
